@@ -1,6 +1,7 @@
 package vc
 
 import (
+	"go/token"
 	"fmt"
 	"go/types"
 	"sort"
@@ -301,6 +302,7 @@ type globalClause struct {
 	pkg   string
 	cl    *Clause
 	trans bool
+	step  bool // per-action guarantee: proved only
 }
 
 func (c *VCtx) globalClauses() []globalClause {
@@ -308,10 +310,21 @@ func (c *VCtx) globalClauses() []globalClause {
 	for _, pkg := range c.relevantPkgs() {
 		ps := c.eng.Specs[pkg]
 		for _, g := range ps.Ginvs {
-			out = append(out, globalClause{pkg, g, false})
+			out = append(out, globalClause{pkg, g, false, false})
 		}
 		for _, g := range ps.Gtrans {
-			out = append(out, globalClause{pkg, g, true})
+			out = append(out, globalClause{pkg, g, true, false})
+		}
+	}
+	return out
+}
+
+// stepClauses: the per-action guarantees (gstep) of the relevant packages.
+func (c *VCtx) stepClauses() []globalClause {
+	var out []globalClause
+	for _, pkg := range c.relevantPkgs() {
+		for _, g := range c.eng.Specs[pkg].Gsteps {
+			out = append(out, globalClause{pkg, g, true, true})
 		}
 	}
 	return out
@@ -389,10 +402,13 @@ func (c *VCtx) assumeGlobal(st, before *State) {
 
 // assertGlobal proves the guarantee: ginv hold now, gtrans hold for the step from before to now.
 func (c *VCtx) assertGlobal(st, before *State, tag string) {
-	for i, g := range c.globalClauses() {
+	for i, g := range append(c.globalClauses(), c.stepClauses()...) {
 		kind := "ginv"
 		if g.trans {
 			kind = "gtrans"
+			if g.step {
+				kind = "gstep"
+			}
 			if before == nil {
 				continue
 			}
@@ -456,6 +472,11 @@ func (c *VCtx) atomicHook(fr *Frame, st *State, l *Loc, pre bool) {
 	if fr != nil && fr.contract != nil {
 		n := c.atomicOrdinal(fr)
 		c.runGhost(fr, st, fr.contract, fmt.Sprintf("atomic %d", n), map[string]Val{"ret": c.lastAtomicRet})
+		if fr.contract.Asserts != nil && c.atomicBefore != nil {
+			c.assertOld, c.assertExtra = c.atomicBefore, map[string]Val{"ret": c.lastAtomicRet}
+			c.pointAsserts(fr, st, fmt.Sprintf("atomic %d", n), token.NoPos)
+			c.assertOld, c.assertExtra = nil, nil
+		}
 	}
 	if local && len(st.held) > 0 {
 		return // part of the enclosing critical section: checked at unlock
